@@ -156,7 +156,26 @@ def worker(case):
     d = ecanon.diff(got, back, check_prims=False)
     if d:
         probs.append(("round-trip-differs:%s:%s" % (d[0], tag), d[1][:400]))
-    return {"key": key, "nontrivial": True, "outcome": "ok", "problems": probs, "transitions": 3}
+    # parse -> edit -> write -> read: every instance is renamed, one is copied under a new name
+    for x in list(n.top_instance.reference.children):
+        x.name = x.name + "_r"
+    kids = list(n.top_instance.reference.children)
+    if kids:
+        twin = kids[0].clone()
+        twin.name = kids[0].name + "_twin"
+        n.top_instance.reference.add_child(twin)
+    got2 = ecanon.extract(n)
+    try:
+        with core.quiet():
+            s.compose(n, out)
+            m2 = s.parse(out)
+    except Exception as ex:
+        probs.append(("round-trip-after-edit-raised:%s:%s" % (type(ex).__name__, tag), repr(ex)[:300]))
+        return {"key": key, "nontrivial": True, "outcome": "rt2-raised", "problems": probs, "transitions": 4}
+    d = ecanon.diff(got2, ecanon.extract(m2), check_prims=False)
+    if d:
+        probs.append(("round-trip-after-edit-differs:%s:%s" % (d[0], tag), d[1][:400]))
+    return {"key": key, "nontrivial": True, "outcome": "ok", "problems": probs, "transitions": 5}
 
 
 engine_b.WORKERS[ID] = worker
